@@ -546,6 +546,88 @@ def run_builder_subclasses(pane, res):
                                f"a variant and its subclass sharing the inherited tag value 'a' ({order}; {layout[0]} layout) were accepted when the type was built", cell, 1)
 
 
+def run_restricted_variants(pane, res):
+    """(a) a variant that reads positional data only (in_format=['tuple']): whatever the layout, the body goes through THAT
+    variant's converter - a mapping body is its body error, a sequence body gives what the variant alone gives.
+    (b) a variant that is a SUBCLASS of an earlier variant and has its own tag: it is written under its own tag with its own
+    fields, and read back as itself."""
+    from pane.annotations import Tagged
+    from pane.convert import make_converter
+    from pane.errors import ConvertError
+    for li, layout in enumerate(LAYOUTS):
+        def mk():
+            A = grammar.pin(type('RTup', (pane.PaneBase,), {'__annotations__': {'x': t.Literal['a'], 'y': int}, 'x': 'a', 'y': 1,
+                                                            '__module__': 'mc.generated'}, in_format=['tuple']))
+            B = grammar.pin(type('ROther', (pane.PaneBase,), {'__annotations__': {'x': t.Literal['b'], 'y': int}, 'x': 'b', 'y': 1,
+                                                              '__module__': 'mc.generated'}))
+            return A, B
+        A, B = mk()
+        T = t.Annotated[t.Union[A, B], Tagged('x', external=layout[1])]
+        conv = make_converter(T)
+        bodies = [{}, {'y': 2}, {'x': 'a', 'y': 2}, ['a'], ['a', 2], ['a', 'q'], [], ['a', 2, 3]]
+        for body in bodies:
+            d = wrap(layout, 'x', 'a', values.fresh(body))
+            if d is None:
+                continue
+            # the variant alone, on what it is handed: the body (internal layout: the mapping itself, with or without the tag)
+            alone_in = values.fresh(body)
+            try:
+                want = ('ok', pane.from_data(alone_in, A))
+            except ConvertError:
+                want = ('rej', None)
+            try:
+                got = ('ok', pane.from_data(values.fresh(d), T))
+            except ConvertError:
+                got = ('rej', None)
+            except Exception as e:  # noqa
+                got = ('raw', f"{type(e).__name__}: {core.sstr(e, 60)}")
+            res['states'] += 1
+            res['evals'] += 1
+            res['validated'] += 1
+            res['transitions'] += 2
+            res['nontrivial'].add(f"tuple_only|{layout[0]}|{values.kind(body)}|{want[0]}")
+            cell = {'builder': True, 'tags': f"tuple_only:{layout[0]}:{values.expr(body)}", 'layout': li}
+            if got[0] != want[0] or (got[0] == 'ok' and got[1] != want[1]):
+                core.add_violation(res, {'kind': 'restricted_variant_bypassed', 'layout': layout[0], 'want': want[0], 'got': got[0]},
+                                   f"{layout[0]} layout, tag 'a' selects a variant with in_format=['tuple']: from_data({values.expr(d)}) -> {got[0]} "
+                                   f"{core.srepr(got[1], 50)}; that variant alone on the body {values.expr(body)} -> {want[0]} {core.srepr(want[1], 50)}", cell, 3)
+            # both passes of the tagged converter agree
+            try:
+                conv.try_convert(values.fresh(d))
+                fast = 'ok'
+            except Exception:  # noqa
+                fast = 'fail'
+            try:
+                diag = 'fail' if conv.collect_errors(values.fresh(d)) is not None else 'ok'
+            except Exception as e:  # noqa
+                diag = 'raw:' + type(e).__name__
+            if fast != diag:
+                core.add_violation(res, {'kind': 'restricted_variant_passes_disagree', 'layout': layout[0]},
+                                   f"{layout[0]} layout, tuple-only variant, {values.expr(d)}: try_convert -> {fast}, collect_errors -> {diag}", cell, 3)
+        # (b) subclass variant with its own tag, listed after its base
+        Base = grammar.pin(type('RBase', (pane.PaneBase,), {'__annotations__': {'x': t.Literal['base'], 'y': int}, 'x': 'base', 'y': 1, '__module__': 'mc.generated'}))
+        Sub = grammar.pin(type('RSub', (Base,), {'__annotations__': {'x': t.Literal['sub'], 'z': int}, 'x': 'sub', 'z': 2, '__module__': 'mc.generated'}))
+        for order, vs in (('base first', (Base, Sub)), ('subclass first', (Sub, Base))):
+            T2 = t.Annotated[t.Union[vs], Tagged('x', external=layout[1])]
+            for val in (Sub(y=5, z=7), Base(y=5)):
+                res['states'] += 1
+                res['evals'] += 1
+                res['validated'] += 1
+                res['nontrivial'].add(f"subclass_variant|{layout[0]}|{order}|{type(val).__name__}")
+                cell = {'builder': True, 'tags': f"subvariant:{layout[0]}:{order}:{type(val).__name__}", 'layout': li}
+                try:
+                    d = pane.into_data(val, T2)
+                    back = pane.from_data(values.fresh(d), T2)
+                    ok = type(back) is type(val) and back == val
+                    how = f"wrote {d!r}, read back {back!r}"
+                except Exception as e:  # noqa
+                    ok, how = False, f"{type(e).__name__}: {core.sstr(e, 80)}"
+                if not ok:
+                    core.add_violation(res, {'kind': 'subclass_variant_written_as_base', 'layout': layout[0], 'order': order},
+                                       f"{layout[0]} layout, variants ({order}) where RSub subclasses RBase and has its own tag: into_data({val!r}) "
+                                       f"{how}", cell, 3)
+
+
 def run_shard(shard, tier):
     pane = core.import_pane()
     warnings.simplefilter('ignore')
@@ -553,6 +635,7 @@ def run_shard(shard, tier):
     if shard.get('builder'):
         run_builder(pane, res)
         run_builder_subclasses(pane, res)
+        run_restricted_variants(pane, res)
         return res
     for kind in KINDS:
         for li in range(len(LAYOUTS)):
@@ -574,6 +657,7 @@ def replay(cell):
     if cell.get('builder'):
         run_builder(pane, res)
         run_builder_subclasses(pane, res)
+        run_restricted_variants(pane, res)
         return [v for lst in res['violations'].values() for v in lst if v['cell'].get('tags') == cell.get('tags')]
     run_type(pane, res, cell['ts'], cell['br'], cell['kind'], cell['layout'], 'quick')
     out = [v for lst in res['violations'].values() for v in lst]
